@@ -15,8 +15,11 @@ Mechanical edits applied to extracted text (and nothing else; all are logged):
      (#[instrument..], #[tracing::instrument..], #[must_use], #[inline..], #[allow(..)], #[derive(..)])
   D2 statements that consist solely of a tracing macro invocation
      (debug!/trace!/info!/warn!/debug_span!/.. and `let _x = debug_span!(..)..;`) are dropped
+  D3 `pub(super)` / `pub(in ..)` visibility qualifiers become `pub(crate)` (single flat module)
   I1 the unit's contract block is inserted between signature and body
   I2 the result type `-> T` is rewritten to `-> (r: T)` so the contract can name it
+  I3 loop invariants (`loopinv=` labels) are inserted between a loop header and its body;
+     `fnattrs=` prepends verifier attributes (e.g. exec_allows_no_decreases_clause)
 """
 import json
 import os
@@ -91,6 +94,15 @@ def _drop_docs_and_attrs(text: str, dropped: list) -> str:
         out.append(ln)
         i += 1
     return "\n".join(out)
+
+
+def _normalize_vis(text: str, dropped: list) -> str:
+    """D3: `pub(super)` / `pub(in path)` cannot be expressed in the single flat
+    module the unit is assembled in; they become `pub(crate)`."""
+    new = re.sub(r"\bpub\((?:super|in [\w:]+)\)", "pub(crate)", text)
+    if new != text:
+        dropped.append("vis:pub(super)->pub(crate)")
+    return new
 
 
 def _drop_tracing(text: str, dropped: list) -> str:
@@ -180,6 +192,30 @@ def _insert_contract(fn_text: str, contract: str, binder: str = "r") -> str:
     return sig.rstrip() + "\n" + contract.rstrip() + "\n" + body
 
 
+def _insert_loop_invariants(fn_text: str, invs: list) -> str:
+    """Insert `invs[k]` between the k-th loop header and its body brace."""
+    out, pos = "", 0
+    for inv in invs:
+        masked = rsrc.mask(fn_text)
+        m = re.compile(r"\b(loop|while)\b").search(masked, pos)
+        if not m:
+            raise Unsupported("loop invariant given but no loop found")
+        # the loop body's '{' : first '{' at paren depth 0 after the keyword
+        k, depth = m.end(), 0
+        while k < len(masked):
+            ch = masked[k]
+            if ch in "([":
+                depth += 1
+            elif ch in ")]":
+                depth -= 1
+            elif ch == "{" and depth == 0:
+                break
+            k += 1
+        fn_text = fn_text[:k] + "\n" + inv.rstrip() + "\n" + fn_text[k:]
+        pos = k + len(inv) + 2
+    return fn_text
+
+
 def _parse_kv(s: str) -> dict:
     d = {}
     for tok in shlex.split(s):
@@ -246,6 +282,7 @@ def assemble(repo_dir: str, unit: dict, out_path: str):
             item_start, decl_start, end = rsrc.find_type(src, kv["kind"], kv["name"], masked)
             text = src[decl_start:end]
             text = _drop_docs_and_attrs(text, dropped)
+            text = _normalize_vis(text, dropped)
             pre = []
             if "attrs" in kv:
                 pre.append(kv["attrs"])
@@ -262,6 +299,7 @@ def assemble(repo_dir: str, unit: dict, out_path: str):
             original = text
             text = _drop_docs_and_attrs(text, dropped)
             text = _drop_tracing(text, dropped)
+            text = _normalize_vis(text, dropped)
             if kv.get("vis") == "drop":
                 text = re.sub(r"^(\s*)pub(\([a-z]+\))?\s+", r"\1", text, count=1)
             label = kv["contract"]
@@ -269,6 +307,12 @@ def assemble(repo_dir: str, unit: dict, out_path: str):
                 raise Unsupported(f"template {unit['template']}: contract {label} not defined")
             ctext = contracts[label]
             text2 = _insert_contract(text, ctext, kv.get("binder", "r"))
+            # I3: loop invariants (annotation in place): `loopinv=<label>[,<label>..]`, the k-th label
+            # is inserted after the k-th `loop` / `while ..` header of the function body
+            if "loopinv" in kv:
+                text2 = _insert_loop_invariants(text2, [contracts[l] for l in kv["loopinv"].split(",")])
+            if "fnattrs" in kv:
+                text2 = kv["fnattrs"] + "\n" + text2
             start_line = len(out) + 1
             out.extend(text2.split("\n"))
             clauses = [c.strip() for c in ctext.split("\n") if c.strip() and not c.strip().startswith("//")]
